@@ -151,7 +151,7 @@ def gen_cases(rng, tier):
     # counters switched off one kind at a time (what stays recorded must still be true of the file), and resource paths
     # with sub-directories, spaces and a backslash (the listed path must be the path written)
     extra = [({'resource-bytes': None, 'datapackage-bytes': None}, None), ({'resource-hash': None, 'datapackage-hash': None}, None),
-             (None, ['data\\r 1.csv', 'sub/dir/r2.csv'])]
+             (None, ['data\\r 1.csv', 'sub/dir/r2.csv']), (None, ['cafe\u0301.csv', 'd\u0061\u0308ta/\u00e9.csv'])]
     if tier == 'thorough':
         extra += [({'resource-bytes': None}, ['a/b.csv', None]), ({'resource-rowcount': None, 'datapackage-bytes': None}, ['x\\y\\z.csv', 'x/y.csv'])]
     for k, (counters, paths) in enumerate(extra):
